@@ -19,7 +19,6 @@ import (
 	"github.com/sanonone/kektordb/pkg/verifhook"
 )
 
-
 // c01cRestartSame closes and reopens the engine and reports the first observable that changed.
 func c01cRestartSame(e *engine.Engine, dir string, u vexec.Universe) (*engine.Engine, string) {
 	before := vexec.Observe(e, u)
